@@ -63,6 +63,13 @@ func c12place(content []byte, before [][]byte, readerFirst bool) (*parsley.FileS
 		for i, b := range before {
 			list = append(list, text.NewFile(fmt.Sprintf("other%d", i), b))
 		}
+		if len(content)%4 == 3 {
+			// all files in ONE NewFileSet call, the parsed file somewhere in the middle or at the end of the arguments
+			k := (n + len(before)) % (len(list) + 1)
+			args := append(append(append([]parsley.File{}, list[:k]...), f), list[k:]...)
+			fs = parsley.NewFileSet(args...)
+			break
+		}
 		fs = parsley.NewFileSet(list...)
 		fs.AddFile(f)
 		stranger := text.NewFile("stranger", []byte("a file of another set\nwith two lines"))
